@@ -178,7 +178,8 @@ def _row(ph: Any) -> dict:
 def run_server(spec: dict, seed: int, conf: dict | None = None, replay_actions: list[int] | None = None) -> STrace:
     """conf: idle_timeout (None = no IdleReleaseDecorator), store ("memory"|"sqlite"), crashes (max process stops),
     crash_pct (chance per quiescent round, %), horizon (virtual seconds), plan (optional explicit list of driver
-    steps instead of the random scheduler: ["time"] | ["until", t] | ["crash"] | ["send", ty, k, step] | ["gate"])"""
+    steps instead of the random scheduler: ["time"] | ["until", t] | ["crash"] | ["crash", downtime] | ["send", ty, k, step] | ["gate"]),
+    downtime (virtual seconds the process stays down after every process stop)"""
     conf = dict(conf or {})
     install()
     rng = random.Random(seed)
@@ -280,7 +281,7 @@ def run_server(spec: dict, seed: int, conf: dict | None = None, replay_actions: 
                         elif act[0] == "send":
                             kind, arg = "sendx", {"ty": act[1], "k": act[2], "step": act[3]}
                         else:
-                            kind, arg = act[0], None
+                            kind, arg = act[0], (act[1] if len(act) > 1 else None)
                     else:
                         options: list[tuple[str, Any]] = [("gate", k) for k in list(run.waiting)]
                         for i, ext in enumerate(externals):
@@ -321,13 +322,19 @@ def run_server(spec: dict, seed: int, conf: dict | None = None, replay_actions: 
                         crashes -= 1
                         i0 = len(run.trace.calls)
                         run.marks.append({"kind": "crash", "t": loop.time(), "idx": i0, "heap": heap_info(run.runner) if is_live else [],
-                                          "runner": run.runner if is_live else None, "was_live": is_live})
+                                          "runner": run.runner if is_live else None, "was_live": is_live, "row": row})
                         stack = await stack.crash()
+                        # downtime: the process stays down for a while (virtual seconds) before the next boot; nothing of the
+                        # run is in memory meanwhile (plan: ["crash", dt]; random scheduler: conf["downtime"])
+                        down = float((arg if kind == "crash" and arg else None) or conf.get("downtime") or 0)
+                        if down > 0:
+                            await asyncio.sleep(down)
                         i1 = len(run.trace.calls)
                         n0 = len(run.inits)
+                        t_boot = loop.time()
                         await stack.start()
-                        run.marks.append({"kind": "resume", "t": loop.time(), "idx0": i1, "idx": len(run.trace.calls),
-                                          "reloaded": len(run.inits) > n0})
+                        run.marks.append({"kind": "resume", "t": t_boot, "idx0": i1, "idx": len(run.trace.calls),
+                                          "reloaded": len(run.inits) > n0, "down": down})
                     else:
                         raise ValueError(kind)
             finally:
@@ -655,3 +662,144 @@ def mon_timers(tr: STrace, case: Any) -> list[Violation]:
     for sp in spurious:
         vs.append(Violation(f"C14/spurious_{sp['kind']}_tick", f"the control loop processed a timer tick nobody scheduled: {sp}", case))
     return vs
+
+
+# --------------------------------------------------------------------------
+# (S) a retry that was granted before the run left memory is not taken back by the reload
+
+
+def _failure_decisions(calls: list, lo: int, hi: int, caller: str) -> list[tuple]:
+    """what the step's retry policy was asked and answered for every failed execution reduced by `caller` in calls[lo:hi],
+    in order: (call idx, step, input uid, failures, elapsed handed to the policy, answer)"""
+    out = []
+    for k in range(lo, min(hi, len(calls))):
+        c = calls[k]
+        if c.caller != caller or c.error is not None or not isinstance(c.tick, T.TickStepResult):
+            continue
+        if not any(isinstance(r, R.StepWorkerFailed) for r in c.tick.result):
+            continue
+        for (stp, el, att, _err, d) in c.oracle:
+            if stp == c.tick.step_name:
+                out.append((k, stp, getattr(c.tick.event, "uid", None), att, el, d))
+    return out
+
+
+def reloads(tr: STrace) -> list[tuple[int, int]]:
+    """[start, end) call-index ranges of the journal replays (one per reload of the run from its persisted ticks)"""
+    calls = tr.trace.calls
+    out, k = [], 0
+    while k < len(calls):
+        if calls[k].caller == "replay_ticks_stream":
+            j = k
+            while j < len(calls) and calls[j].caller == "replay_ticks_stream":
+                j += 1
+            out.append((k, j))
+            k = j
+        else:
+            k += 1
+    return out
+
+
+def mon_granted_retries(tr: STrace, case: Any) -> list[Violation]:
+    """the property, for retries the policy had already granted when the run left memory: the step IS retried after the
+    reload.  Two rules, both true of a server that reloads a run as it was:
+
+    * `granted_retry_revoked_by_reload_after_<cut>_<state>`: the journal the reload replays holds the failures of the
+      executions before the cut; the live control loop asked the step's retry policy about each of them and the policy
+      granted a retry (answered with a delay).  A reload whose replay asks the policy about the SAME journaled failure and
+      is told to give up (because it hands the policy something else than the live loop did: elapsed time measured up to
+      the moment of the replay, downtime included) takes the granted retry back: the handler is failed / routed to the
+      error handler / started over instead of the step being retried.  <state> = where the retry was when the run left
+      memory: pending (delay running), in_flight (the retried execution had started), suspended_in_wait (it waits for an
+      event), carried_out (it had finished).
+    * `retry_in_flight_not_resumed_after_restart` (end to end, from step executions and the handler row only): the retried
+      execution was running when the process stopped and the handler row said running / not idle, so the next boot resumes
+      the run: the step must be executed again for that input."""
+    vs: list[Violation] = []
+    calls = tr.trace.calls
+    cs = cuts(tr)
+    exps, _sp = expectations(tr)
+    steps = tr.trace.steps
+    status = tr.final.get("status")
+    for (lo, hi) in reloads(tr):
+        live = _failure_decisions(calls, 0, lo, "_process_tick")
+        rep = _failure_decisions(calls, lo, hi, "replay_ticks_stream")
+        cut = next((c for c in reversed(cs) if c["idx"] <= lo), None)
+        for (lv, rp) in zip(live, rep):
+            if lv[1:4] != rp[1:4]:
+                break  # the replay does not walk the same failures (the correspondence reports that): no pairing beyond here
+            (k, stp, uid, att, el_live, d_live), (kr, _s, _u, _a, el_rep, d_rep) = lv, rp
+            if d_live in (None, "RAISE") or d_rep is not None:
+                continue
+            cut_idx = cut["idx"] if cut is not None else lo
+            cut_t = cut["t"] if cut is not None else calls[lo].now
+            # where the LATEST retry granted for that input was when the run left memory (the journal may hold several failures)
+            (k_l, _s2, _u2, att_l, _el2, _d2) = [x for x in live if x[1:3] == (stp, uid) and x[0] < cut_idx and x[5] not in (None, "RAISE")][-1]
+            e = next((x for x in exps if x.kind == "retry" and x.step == stp and x.ident == uid and x.attempts == att_l and x.created_idx == k_l), None)
+            if e is None or e.delivered_idx is None or e.delivered_idx >= cut_idx:
+                state = "pending"
+            else:
+                ent = [s for s in steps if s[0] == "enter" and s[1] == stp and s[2] == uid and s[3] == att_l and e.delivered_t - EPS <= s[4] <= cut_t + EPS]
+                fin = [s for s in steps if s[0] == "exit" and s[1] == stp and s[2] == uid and s[3] == att_l and e.delivered_t - EPS <= s[4] <= cut_t + EPS
+                       and s[5].get("status") != "cancelled"]
+                state = (("suspended_in_wait" if str(fin[-1][5].get("status")).endswith("WaitingForEvent") else "carried_out") if fin
+                         else ("in_flight" if ent else "pending"))
+            after = [s for s in steps if s[0] == "enter" and s[1] == stp and s[2] == uid and s[4] >= calls[lo].now - EPS]
+            again = [s for s in steps if s[0] == "enter" and s[4] >= calls[lo].now - EPS and (s[1], s[2]) != (stp, uid)]
+            where = cut["kind"] if cut is not None else "reload"
+            vs.append(Violation(
+                f"C14/granted_retry_revoked_by_reload_after_{where}_{state}",
+                f"step {stp} (input uid {uid}) failed for the {att}. time at t={calls[k].now:g}; its retry policy {_policy_of(tr.spec, stp)} was handed "
+                f"elapsed_time={el_live:g} and granted retry {att} (delay {d_live:g} s); the latest retry granted for that input (retry {att_l}) was "
+                f"{state.replace('_', ' ')} when the run left memory ({where} at t={cut_t:g}); the reload at t={calls[lo].now:g} replayed that journaled failure, handed the policy elapsed_time={el_rep:g} "
+                f"(the time up to the reload, {calls[lo].now - cut_t:g} s out of memory included) and was told to give up: the granted retry was taken back. "
+                f"After the reload: step {stp} executed {len(after)}x for that input, other step executions {[(s[1], s[2], s[3]) for s in again][:6]}, "
+                f"handler '{status}' at t={tr.final.get('t0', 0.0) + tr.final.get('t', 0.0):g} ({tr.end}); expected: the run goes on as if it had stayed in "
+                f"memory (the step is retried / its result stands) and the policy's budget is charged only with the time the live run had measured", case))
+            break
+    # end to end: an execution of a granted retry that was running when the process stopped is run again by the next boot
+    for m_i, m in enumerate(tr.marks):
+        if m["kind"] != "crash" or not m.get("was_live"):
+            continue
+        row = m.get("row") or {}
+        if row.get("status") != "running" or row.get("idle") is not None:
+            continue  # an idle-flagged handler is not resumed at boot (it waits for an event)
+        res = next((x for x in tr.marks[m_i + 1:] if x["kind"] == "resume"), None)
+        if res is None:
+            continue
+        for e in exps:
+            if e.kind != "retry" or e.delivered_idx is None or e.delivered_idx >= m["idx"] or e.created_idx >= m["idx"]:
+                continue
+            if any(c["idx"] > e.created_idx and c["idx"] < m["idx"] for c in cs):
+                continue  # an earlier cut lies in between: judged there
+            ent = [s for s in steps if s[0] == "enter" and s[1] == e.step and s[2] == e.ident and s[3] == e.attempts and e.delivered_t - EPS <= s[4] <= m["t"] + EPS]
+            if not ent:
+                continue
+            t_in = ent[-1][4]
+            done = [s for s in steps if s[0] == "exit" and s[1] == e.step and s[2] == e.ident and s[3] == e.attempts and t_in - EPS <= s[4] <= m["t"] + EPS
+                    and not (s[5].get("status") == "cancelled" and abs(s[4] - m["t"]) < EPS)]
+            if done:
+                continue  # the retried execution had come back before the stop
+            later = [s for s in steps if s[0] == "enter" and s[1] == e.step and s[2] == e.ident and s[4] >= res["t"] - EPS]
+            if later:
+                continue
+            vs.append(Violation(
+                "C14/retry_in_flight_not_resumed_after_restart",
+                f"retry {e.attempts} of step {e.step} (input uid {e.ident}, policy {_policy_of(tr.spec, e.step)}) had waited out its delay and was executing "
+                f"(entered at t={t_in:g}) when the process stopped at t={m['t']:g}; the handler row said running / not idle, the next boot at t={res['t']:g} "
+                f"({res.get('down', 0):g} s later) reloaded the run from its journal -- and the step was never executed again for that input: "
+                f"handler '{status}' at t={tr.final.get('t0', 0.0) + tr.final.get('t', 0.0):g} ({tr.end}); step executions after the boot: "
+                f"{[(s[1], s[2], s[3]) for s in steps if s[0] == 'enter' and s[4] >= res['t'] - EPS][:6]}", case))
+    return vs
+
+
+def _policy_of(spec: dict, step: str) -> str:
+    p = next((s.get("retry") for s in spec["steps"] if s["name"] == step), None)
+    if not p:
+        return "none"
+    k = p.get("kind")
+    if k == "delay":
+        return f"stop_after_delay({p['d']}) wait_fixed({p.get('wait', 1)})"
+    if k == "before_delay":
+        return f"stop_before_delay({p['d']}) wait_fixed({p.get('wait', 1)})"
+    return str(p)
